@@ -1,1 +1,8 @@
 // replay harness: see tests/
+//! Every wait in the bounded stand-ins is scaled by the environment variable REPLAY_SCALE (default 1). The driver re-runs a failing
+//! stand-in with a larger scale before it believes the failure, so that a loaded machine cannot turn a slow run into an alarm.
+use std::time::Duration;
+
+pub fn scale() -> u64 { std::env::var("REPLAY_SCALE").ok().and_then(|s| s.parse().ok()).filter(|n| *n >= 1).unwrap_or(1) }
+pub fn ms(n: u64) -> Duration { Duration::from_millis(n * scale()) }
+pub fn secs(n: u64) -> Duration { Duration::from_secs(n * scale()) }
